@@ -128,6 +128,11 @@ class Recon:
             if isinstance(node.op, ast.Not):
                 if S.is_const(v):
                     return S.C(not v[1])
+                flip = {"==": "!=", "!=": "==", "is": "isnot", "isnot": "is", "in": "notin", "notin": "in"}
+                if v[0] == "cmp" and v[1] in flip:
+                    return ("cmp", flip[v[1]], v[2], v[3])  # not (a == b)  is  a != b
+                if v[0] == "not":
+                    return ("call", "bool", (v[1],), ())
                 return ("not", v)
             if isinstance(node.op, ast.USub):
                 if S.is_const(v) and isinstance(v[1], (int, float)):
@@ -1027,6 +1032,8 @@ class Recon:
         return self._call_value(ctx, node, f, args, kws, depth)
 
     def _method_call(self, ctx: FuncCtx, node: ast.Call, recv, name: str, args, kws, depth):
+        if name == "digest" and not args and not kws and recv[0] == "call" and recv[1] == "ext:hmac.new" and len(recv[2]) == 3:
+            return S.call("ext:hmac.digest", list(recv[2]))  # hmac.new(key, msg, alg).digest() is hmac.digest(key, msg, alg)
         if name == "format" and S.is_const(recv) and type(recv[1]) is str and all(S.is_const(a) and type(a[1]) in (str, int) for a in args):
             # "template".format(constants): a constant (string formatting of literals, nothing of the repository runs)
             kw = {}
